@@ -17,6 +17,8 @@ lookup-dup  the same with time lists that contain one duplicated time; any index
             as the reference answer is accepted.
 lookup-long beyond the small scope: time lists of 5..33 samples (regular, irregular, with duplicated times), queries on
             every sample time, every midpoint, just inside each interval from both ends, outside; two units; 3 policies.
+lookup-near query times strictly before / after every sample time by a relative 4e-6 .. 1e-9 (the ordered comparisons of
+            the statement are exact: a sample 1e-6 away is not "not before" the query), three forms / units, 3 policies.
 lookup-history   (E2) call histories on ONE trajectory object: the same number in s, ms, min, h in all 24 orders,
             in every ordered pair of units with mixed UnitValue / str forms, interleaved over the three policies,
             and long histories over all numbers x units x policies, run twice; every answer against the oracle.
@@ -1199,6 +1201,71 @@ def _check_lookup_long(case, out, stats):
                 out.append(("C17:get_sample_index-long:%s:%s:%s" % (policy, cls, ktail),
                             "%s returned %r, expected %s" % (ctxt, got, " or ".join(repr(a) for a in accept))))
 
+
+# ---- queries a hair before / after the sample times ------------------------------------------------------
+
+NEAR_LISTS = [[0.25], [10.0], [0.0, 0.5], [2.5, 10.0], [0.25, 0.75, 1.25], [0.5, 1.0, 1.5, 2.0, 2.5]]
+NEAR_REL = [F(1, 2 ** 18), F(1, 2 ** 24), F(1, 2 ** 30)]       # 3.8e-6, 6.0e-8, 9.3e-10 (relative to the sample time)
+NEAR_ABS = [F(1, 2 ** 28), F(1, 2 ** 34)]                      # around a sample at time 0
+
+
+def _check_lookup_near(case, out, stats):
+    """query times strictly before / after a sample time by a relative 4e-6 .. 1e-9: the ordered comparisons of the
+    statement (not after / not before / closest) are exact, a sample 1e-6 away is NOT the queried time."""
+    times = [F(x) for x in case["times"]]
+    tunit = case["tunit"]
+    n = len(times)
+    T = [x * _tscale(tunit) for x in times]
+    system = _mk_system(1, ["grid", 1, 1, 1])
+    tr = RDTrajectory(UnitArray([0.0] * n, "molecule"), UnitArray([float(x) for x in times], tunit), system)
+    other = OTHER_TUNIT[tunit]
+    only = case.get("only")
+    step = 0
+    for i, ti in enumerate(times):
+        where = "first" if i == 0 else ("last" if i == n - 1 else "interior")
+        if n == 1:
+            where = "only"
+        offs = [ti * r for r in NEAR_REL] if ti != 0 else list(NEAR_ABS)
+        for off in offs:
+            for side, q in (("just-before", ti - off), ("just-after", ti + off)):
+                for (qunit, form) in ((tunit, "UnitValue"), (tunit, "str"), (other, "str")):
+                    v = float(q) if qunit == tunit else _query_value(q, tunit, qunit)
+                    arg = UnitValue(v, qunit) if form == "UnitValue" else "%r %s" % (v, qunit)
+                    shown = repr(arg) if form == "str" else "UnitValue(%r, %r)" % (v, qunit)
+                    for policy in POLICIES:
+                        step += 1
+                        if only is not None and step != only:
+                            continue
+                        accept = _accept_set(policy, T, tunit, v, qunit)
+                        if len(accept) > 1:
+                            stats["near_tie"] += 1
+                        else:
+                            stats["near_lookups_decided_strictly"] += 1
+                        stats["transitions"] += 1
+                        stats["evaluations"] += 1
+                        ktail = "%s-%s:%s" % (side, where, "same-unit" if qunit == tunit else "cross-unit")
+                        ctxt = "t=%s %s, query %s sample %d by %.1e%s: get_sample_index(%s, %r)" % (
+                            [float(x) for x in times], tunit, side.replace("-", " "), i, float(off if ti == 0 else off / ti),
+                            " (absolute)" if ti == 0 else " (relative)", shown, policy)
+                        try:
+                            got = tr.get_sample_index(arg, policy)
+                        except Exception as e:
+                            out.append(("C17:get_sample_index-near:%s:unexpected-exception:%s" % (policy, ktail),
+                                        "%s raised %s: %s" % (ctxt, type(e).__name__, e), step))
+                            continue
+                        if got is not None and (isinstance(got, bool) or not isinstance(got, numbers.Integral)):
+                            out.append(("C17:get_sample_index-near:%s:result-type:%s" % (policy, ktail),
+                                        "%s returned %r" % (ctxt, got), step))
+                            continue
+                        if got is not None:
+                            got = int(got)
+                        if got in accept:
+                            continue
+                        cls = "none-but-sample-exists" if got is None else (
+                            "index-but-no-such-sample" if accept == [None] else "wrong-index")
+                        out.append(("C17:get_sample_index-near:%s:%s:%s" % (policy, cls, ktail),
+                                    "%s returned %r, expected %s" % (ctxt, got, " or ".join(repr(a) for a in accept)), step))
+
 # ---- unknown species -------------------------------------------------------------------------------
 
 def _check_unknown(case, out, stats):
@@ -1290,7 +1357,7 @@ _STAT_KEYS = ("transitions", "evaluations", "near_tie", "near_tie_not_lattice_an
               "provenance_save_load_raised", "provenance_unexpected_data_length", "provenance_trajectories_read",
               "carrier_accepted", "carrier_rejected", "carrier_coordinates_do_not_fit",
               "network_edits_read", "network_edit_rejected", "network_edit_not_determined",
-              "long_lookups_strictly_inside")
+              "long_lookups_strictly_inside", "near_lookups_decided_strictly")
 
 
 def _new_stats():
@@ -1323,6 +1390,10 @@ def check_case(case, stats=None):
             _check_provenance(case, out, stats)
         elif sub == "lookup-long":
             _check_lookup_long(case, out, stats)
+        elif sub == "lookup-near":
+            near = []
+            _check_lookup_near(case, near, stats)
+            out.extend((k, w) for (k, w, st) in near)
         elif sub == "network-edited":
             _check_network_edited(case, out, stats)
         elif sub == "flag-carrier":
@@ -1446,6 +1517,14 @@ def _spaces(tier):
                "time, every midpoint, a point 2^-10 inside each interval from both ends, after the last; as UnitValue in "
                "the storage unit and as str in another unit; 3 policies" % (LONG_NS, LONG_KINDS, ltunits),
                gen_long, len(LONG_NS) * len(LONG_KINDS) * len(ltunits), 1))
+
+    def gen_near():
+        for times in NEAR_LISTS:
+            for tunit in TUNITS:
+                yield {"sub": "lookup-near", "times": times, "tunit": tunit}
+    sp.append(("lookup-near: %d time lists x 4 storage units; queries strictly before / after EVERY sample time by a relative "
+               "2^-18, 2^-24, 2^-30 (absolute 2^-28, 2^-34 around time 0), as UnitValue and str in the storage unit and as str "
+               "in another unit; 3 policies" % len(NEAR_LISTS), gen_near, len(NEAR_LISTS) * 4, 2))
 
     # ---- histories on one object
     htunits = TUNITS if tier == "thorough" else ["s", "min"]
@@ -1636,7 +1715,7 @@ def _nontrivial(case):
         return case["ns"] * case["nsp"] * case["nc"] > 1
     if sub in ("lookup", "lookup-dup"):
         return len(case["times"]) > 1 or case["tunit"] != case["qunit"]
-    if sub == "lookup-long":
+    if sub in ("lookup-long", "lookup-near"):
         return True
     if sub == "lookup-history":
         return case.get("v", 1.0) != 0.0          # the number 0 is the same time in every unit
@@ -1732,6 +1811,16 @@ def _minimise(ctx):
                 hit = [w for (kk, w) in check_case(c2) if kk == v.key]
                 if hit:
                     v.case, v.what = c2, hit[0]
+            elif case.get("sub") == "lookup-near" and "only" not in case:
+                c0 = dict(case)
+                nsteps = len(case["times"]) * 3 * 2 * 3 * 3
+                for st in range(1, nsteps + 1):
+                    c2 = dict(c0)
+                    c2["only"] = st
+                    hit = [w for (kk, w) in check_case(c2) if kk == v.key]
+                    if hit:
+                        v.case, v.what = c2, hit[0]
+                        break
             elif case.get("sub") == "lookup-long" and "only" not in case:
                 done = False
                 for qi in range(len(_long_queries(_long_times(case["n"], case["kind"])))):
